@@ -10,9 +10,11 @@ import Tranp.Lemmas.Block
 import Tranp.Lemmas.BlockParse
 import Tranp.Lemmas.BlockCallers
 import Tranp.Lemmas.BlockTotal
+import Tranp.Lemmas.BlockLast
+import Tranp.Generated.BlockCallSites
 
 namespace Tranp.C18
-open Tranp Tranp.Block Tranp.Generated.BlockPairs
+open Tranp Tranp.Block Tranp.Generated.BlockPairs Tranp.Generated.BlockCallSites
 
 /-! ## `_skip_other_block` -/
 
@@ -150,6 +152,46 @@ theorem last_block_error (o cl : Char) (text : Str) (h : (∀ c ∈ text, c ≠ 
 
 example : breakLastBlock ['a', '(', 'b'] ['(', ')'] = .error .IndexError := by decide
 
+/-- On EVERY text (balanced or not, any strings): when `break_last_block` answers `(prefix, inside)`, the text is
+    `prefix ++ open ++ inside ++ close ++ rest` — the two parts are cut out at the position of the group the scan found,
+    not at the first place where the group's text happens to occur (`m[i][i]` → `('m[i]', 'i')`). -/
+theorem last_block_reassemble (o cl : Char) (text p i : Str) (h : breakLastBlock text [o, cl] = .ok (p, i)) :
+    ∃ rest, text = p ++ o :: (i ++ cl :: rest) :=
+  breakLastBlock_reassemble o cl [] text p i h
+
+example : breakLastBlock ['m', '[', 'i', ']', '[', 'i', ']', ';'] ['[', ']'] = .ok (['m', '[', 'i', ']'], ['i']) := by decide
+
+/-- Which group is taken, for every fragment whose strings hold no bracket of the kind: the LAST group of the kind that
+    does not lie inside another group of the kind (groups of the other kinds are transparent) — wherever it stands, also
+    followed by more text or inside groups of other kinds; `prefix` is everything in front of it; no such group: `IndexError`. -/
+theorem last_block_spec (k : BK) (f : Frag) (hf : Frag.CleanFor k f) :
+    breakLastBlock f.render [k.open, k.close]
+      = match (depth0Groups k f []).getLast? with
+        | none => .error .IndexError
+        | some g => .ok (g.1, g.2.render) :=
+  breakLastBlock_frag k f [] hf
+
+/-- non-vacuity: `a[0].b{c[1][2]}.d` → `('a[0].b{c[1]', '2')` -/
+example :
+    let f : Frag := .atom 'a' (.group .sq (.atom '0' .nil) (.atom '.' (.atom 'b' (.group .cur
+      (.atom 'c' (.group .sq (.atom '1' .nil) (.group .sq (.atom '2' .nil) .nil))) (.atom '.' (.atom 'd' .nil))))))
+    Frag.CleanFor .sq f ∧ (depth0Groups .sq f []).length = 3 ∧
+      breakLastBlock f.render ['[', ']'] = .ok (['a', '[', '0', ']', '.', 'b', '{', 'c', '[', '1', ']'], ['2']) := by
+  decide
+
+/-- "The same for every fragment with simple strings" — false: `break_last_block` does not look at quotes, a bracket of the
+    kind inside a string is counted (this is why the property's quantifier says "brackets of other kinds"). -/
+def last_block_any_string_statement : Prop :=
+  ∀ (k : BK) (pre inner : Frag), Frag.Simple pre → Frag.Simple inner →
+    breakLastBlock (pre.render ++ k.open :: (inner.render ++ [k.close])) [k.open, k.close] = .ok (pre.render, inner.render)
+
+/-- witness `f(")")` -/
+theorem last_block_any_string_counterexample : ¬ last_block_any_string_statement := by
+  intro h
+  have := h .par (.atom 'f' .nil) (.str .dq [')'] .nil) (by decide) (by decide)
+  revert this
+  decide
+
 /-! ## `DecoratorHelper._parse` -/
 
 /-- For `path(args)`: the path, `join_args = args`, and the argument dictionary built (decorator.py:36-42) from exactly the
@@ -271,6 +313,22 @@ example :
       = [groupText .par inner, ['(', 'b', '(', 'c', '(', 'd', ')', ')', ')'], ['(', 'c', '(', 'd', ')', ')'], ['(', '1', ')'], ['(', '2', ')']] := by
   decide
 
+/-- The same with ANY fragment in front of the group that has no top-level group of the kind itself — blanks, delimiters,
+    strings, groups of the other kinds (`g[(1)](x)`): the second, delimiter-free `_analyze_entry` from the recorded entry
+    begin finds the bracket of the block, not a bracket inside the prefix. -/
+theorem bracket_spec_prefix (k : BK) (a inner : Frag) (tail : Str) (ha : Frag.Simple a) (hak : hitK k a = none)
+    (htail : ∀ c ∈ tail, has Frag.special c = false) (hi : Frag.Simple inner) :
+    parseBracket (a.render ++ k.open :: (inner.render ++ k.close :: tail)) [k.open, k.close] = .ok (bracketSpec k inner) :=
+  parseBracket_spec_frag k a inner tail ha hak htail hi
+
+/-- non-vacuity: `x = g[(1)]` + `(y, (z))` -/
+example :
+    let a : Frag := .atom 'x' (.atom ' ' (.atom '=' (.atom ' ' (.atom 'g' (.group .sq (.group .par (.atom '1' .nil) .nil) .nil)))))
+    let inner : Frag := .atom 'y' (.atom ',' (.atom ' ' (.group .par (.atom 'z' .nil) .nil)))
+    Frag.Simple a ∧ hitK .par a = none ∧
+      parseBracket (a.render ++ '(' :: (inner.render ++ [')'])) ['(', ')'] = .ok [['(', 'y', ',', ' ', '(', 'z', ')', ')'], ['(', 'z', ')']] := by
+  decide
+
 /-- every block `parse_bracket` returns is a whole, balanced group of the kind -/
 theorem bracket_balanced (k : BK) (name tail : Str) (inner : Frag) (blocks : List Str)
     (hname : ∀ c ∈ name, has Frag.special c = false ∧ has [' ', '\n', '\t'] c = false)
@@ -357,11 +415,22 @@ theorem sep_join (d : Char) (hd : has Frag.special d = false) (fs : List Frag) (
     breakSeparator (Frag.join d fs).render [d] = .ok (fs.map fun f => strip f.render) :=
   breakSeparator_join d hd fs hne hs hno hl
 
+/-- non-vacuity: `a[1, 2], "x,y" ,f(3, 4)` → the three parts -/
+example :
+    let fs : List Frag := [.atom 'a' (.group .sq (.atom '1' (.atom ',' (.atom ' ' (.atom '2' .nil)))) .nil),
+      .atom ' ' (.str .dq ['x', ',', 'y'] (.atom ' ' .nil)), .atom 'f' (.group .par (.atom '3' (.atom ',' (.atom '4' .nil))) .nil)]
+    (∀ f ∈ fs, Frag.Simple f ∧ Frag.noTop ',' f = true) ∧
+      breakSeparator (Frag.join ',' fs).render [','] = .ok [['a', '[', '1', ',', ' ', '2', ']'], ['"', 'x', ',', 'y', '"'], ['f', '(', '3', ',', '4', ')']] := by
+  decide
+
 /-- `PatternParser.pluck_func_call_arguments('callee(args)') = 'args'` (also `pluck_cvar_new`, `break_indexer` are
     `last_block` itself). -/
 theorem caller_pluck (callee args : Frag) (hc : Frag.CleanFor .par callee) (ha : Frag.CleanFor .par args) :
     pluckFuncCallArguments (callee.render ++ '(' :: (args.render ++ [')'])) = .ok args.render :=
   pluck_call callee args hc ha
+
+example : pluckFuncCallArguments ['e', '(', 'x', 's', '[', '0', ']', ',', ' ', '"', ']', '"', ')'] = .ok ['x', 's', '[', '0', ']', ',', ' ', '"', ']', '"'] := by
+  decide
 
 /-- RETIRED production site (kept as a statement about the two helpers): until /repo ed1a7d7 `Py2Cpp.proc_for_range` took
     begin, size (, step) from `break_separator(pluck_func_call_arguments('callee(a, b)'), ',')`. For arguments that are
@@ -420,6 +489,50 @@ theorem caller_dict_comp (kf vf : Frag) (hk : Frag.Simple kf) (hv : Frag.Simple 
   dictComp_pair kf vf hk hv hkn hvn hvne
 
 example : dictCompProjection ['{', 'k', ',', ' ', 'f', '(', 'v', ',', ' ', '1', ')', '}'] = .ok (['k'], ['f', '(', 'v', ',', ' ', '1', ')']) := by
+  decide
+
+/-- The literals of ALL production call sites (generated on every run from rogw/tranp/**/*.py and data/**/*.j2 by
+    translate/gen_block_callsites.py): every `brackets` argument is one of the four bracket pairs (two characters, a pair of
+    `_all_pair`), every `delimiter` argument of `break_separator` is one character that is neither bracket nor quote — the
+    hypotheses under which `last_block*`, `bracket_spec`, `parse_total`, `sep_spec` are stated. -/
+theorem callsites_literals :
+    (∀ s ∈ bracketSites, s.2 ∈ bracketLiterals) ∧ (∀ s ∈ delimiterSites, plainDelimiter s.2 = true) ∧
+    delimiterSetSites = [] := by
+  decide
+
+/-- … hence at every `break_last_block` / `parse_bracket` site (PatternParser.break_indexer, pluck_cvar_new,
+    pluck_func_call_arguments, is_initializer_call, the templates super.j2, comp_for_*.j2, move_assign_declare.j2) the two
+    parts reassemble for every text, and `prefix + group` gives `(prefix, inside)` for fragments whose strings hold no bracket
+    of the site's kind. -/
+theorem callsites_last_block (s : String × Str) (hs : s ∈ bracketSites) :
+    (∀ text p i, breakLastBlock text s.2 = .ok (p, i) → ∃ o cl rest, s.2 = [o, cl] ∧ text = p ++ o :: (i ++ cl :: rest)) ∧
+    ∃ k : BK, s.2 = [k.open, k.close] ∧ ∀ pre inner : Frag, Frag.CleanFor k pre → Frag.CleanFor k inner →
+      breakLastBlock (pre.render ++ k.open :: (inner.render ++ [k.close])) s.2 = .ok (pre.render, inner.render) := by
+  obtain ⟨k, hk⟩ := mem_bracketLiterals s.2 (callsites_literals.1 s hs)
+  refine ⟨fun text p i h => ?_, k, hk, fun pre inner hp hi => ?_⟩
+  · rw [hk] at h
+    obtain ⟨rest, hr⟩ := last_block_reassemble k.open k.close text p i h
+    exact ⟨k.open, k.close, rest, hk, hr⟩
+  · rw [hk]; exact last_block k pre inner hp hi
+
+/-- … and at every `break_separator` site (on_throw, on_dict_comp, Param.parse, DecoratorHelper._parse) the split is the
+    exact top-level split for every fragment. -/
+theorem callsites_separator (s : String × Str) (hs : s ∈ delimiterSites) (f : Frag) (hf : Frag.Simple f) :
+    ∃ d, s.2 = [d] ∧ breakSeparator f.render s.2 = .ok (sepSpec d f) := by
+  obtain ⟨d, hd, _⟩ := plainDelimiter_elim s.2 (callsites_literals.2.1 s hs)
+  exact ⟨d, hd, by rw [hd]; exact sep_spec d f hf⟩
+
+example : bracketSites.length = 9 ∧ delimiterSites.length = 6 := by decide
+
+/-- `PatternParser.break_indexer('recv[key]') = ('recv', 'key')` and `pluck_cvar_new('Class(args)') = ('Class', 'args')`. -/
+theorem caller_indexer_cvar_new (recv key : Frag) (cls args : Frag)
+    (h1 : Frag.CleanFor .sq recv) (h2 : Frag.CleanFor .sq key) (h3 : Frag.CleanFor .par cls) (h4 : Frag.CleanFor .par args) :
+    breakIndexer (recv.render ++ '[' :: (key.render ++ [']'])) = .ok (recv.render, key.render) ∧
+    pluckCvarNew (cls.render ++ '(' :: (args.render ++ [')'])) = .ok (cls.render, args.render) :=
+  ⟨last_block .sq recv key h1 h2, last_block .par cls args h3 h4⟩
+
+example : breakIndexer ['m', '[', 'i', ']', '[', 'i', ']'] = .ok (['m', '[', 'i', ']'], ['i']) ∧
+    pluckCvarNew ['A', '<', 'T', '>', '(', 'f', '(', '1', ')', ',', ' ', '2', ')'] = .ok (['A', '<', 'T', '>'], ['f', '(', '1', ')', ',', ' ', '2']) := by
   decide
 
 /-! ## `DecoratorHelper.any` / `DecoratorQuery.any`, `contains` -/
